@@ -56,6 +56,8 @@ pub fn run<const V: u32>() {
         .bool("generational", constraints.generational)
         .int("maxNonLos", constraints.max_non_los_default_alloc_bytes.min(1 << 30) as i64)
         .str("barrier", &format!("{:?}", constraints.barrier)));
+    // family "space" (C28/C31): the space table every grant / lookup of this run is judged against
+    crate::modes_space::spaces_event::<V>(&plan);
     let programs = arg_u64("programs", 10);
     let ops = arg_u64("ops", 150);
     let sems: Vec<u64> = arg_or("sems", "0,0,0,0,0,0,1,2")
@@ -85,6 +87,11 @@ pub fn run<const V: u32>() {
             crate::modes::alloc_grid::<V>(&mut d, &params, 1);
         }
         "cycles" => crate::modes::cycles::<V>(&mut d, &params, arg_u64("cycles", 40), cfg.heap_mb),
+        "oom" => crate::modes_oom::oom_mode::<V>(&mut d, &params, cfg.heap_mb, is_nogc),
+        "immixlines" => crate::modes_immix::immixlines::<V>(&mut d, &params, cfg.heap_mb),
+        // family "space": C24 side-metadata layout of the configuration, C31 address lookups
+        "layout" => crate::modes_space::layout::<V>(&plan),
+        "lookup" => crate::modes_space::lookup::<V>(&mut d, &params, &plan, &out, is_nogc),
         _ => {
             eprintln!("unknown mode");
             std::process::exit(2);
